@@ -10,7 +10,7 @@ exit); no storage/VRF Result on the publish path is discarded.  Does not
 decide behaviour under partial database writes."""
 from rules import dir_shared as ds, storage_shared as ss
 EXPLANATION = __doc__
-FLOOR = 16
+FLOOR = 17
 EXC = {('akd::directory::Directory::publish', 'StorageManager::rollback_transaction'):
        'rollback after a failure that is itself returned to the caller (only fails if no transaction is active)'}
 
@@ -19,6 +19,8 @@ def run(ctx):
     ds.transaction_bracket(ctx, 'C10')
     ds.commit_is_last_fallible(ctx, 'C10')
     commit_single_write(ctx)
+    from rules import c11
+    c11.writes_inside_commit(ctx, 'C10')
     ss.cache_after_db(ctx, 'C10')
     ds.join_rules(ctx, 'C10')
     ds.err_discipline(ctx, 'C10', ['akd::directory::', 'akd::append_only_zks::', 'akd::tree_node::', 'akd::storage::manager::'], EXC)
